@@ -61,7 +61,8 @@ def main():
         if n[0] % 1000 == 0 or n[0] >= runs:
             dump()
 
-    corpus = tempfile.mkdtemp(prefix="fuzzcorpus_")
+    corpus = os.path.join(os.path.dirname(os.path.abspath(out)), "corpus")  # removed with the campaign's scratch dir
+    os.makedirs(corpus, exist_ok=True)
     # starting corpus: deterministic pseudo-random buffers long enough for Hypothesis to complete an example
     import random
 
